@@ -57,7 +57,7 @@ Proof. exact mon_C05_split. Qed.
 Print Assumptions C05_monitor_split.
 
 (* Without the window hypothesis the full monitor is false of the model: clause (b2) fails in the history
-   RelC05.Witness.wit1 (52 events, goes through the F25 window only). *)
+   RelC05.Witness.wit1 (53 events, goes through the F25 window only). *)
 Theorem C05_refuted : exists cs ord evs s,
   accept (init cs ord) evs = Some s /\ holds_C05 cs evs = false.
 Proof. exact C05_refuted_lemma. Qed.
